@@ -479,6 +479,8 @@ def c13(ev, tier, seed):
         stats, h = cl.run_tlc_piped("C13-runner-%d" % limit, "MC_Runner", cfg, ["runner-replay", "--prop", "C13", "--which", "runner"], workers=4)
         ev.add_tlc("MC_Runner MaxConns=%d NF=%d" % (limit, nf), stats)
         ev.add_harness("histories replayed on Runner/Token (limit %d)" % limit, h)
+    # the token is held for the whole of Token::run: probed at every suspension of replayed connections
+    conn_model(ev, "C13", seed, "permit", 24, ["basic"], spurious=True, maxcuts=1, maxpend=1)
     hs = cl.run_harness("C13-stress", ["runner-stress", "--seed", str(seed), "--rounds", "300" if tier == "thorough" else "60"])
     ev.add_harness("multi-thread stress (supplementary, not model-based)", hs, as_traces=False)
     ev.exhaustive = False
